@@ -1,8 +1,9 @@
 (* C10_Wire.v — wire glue for C10 (no proofs; exercised by the correspondence).
 
-   input    = concat [op; k; v]      op: 1 Put k v | 2 Remove k _ | 3 Get k _
+   input    = concat [op; k; v]      op: 1 Put k v | 2 Remove k _ | 3 Get k _ | 4 Traverse _ _
    observed = per op:  Put/Remove ↦ [Size; IsEmpty; Height]
                        Get        ↦ [found; value; Size; IsEmpty; Height]
+                       Traverse   ↦ count :: k1 :: v1 :: k2 :: v2 … ++ [Size; IsEmpty; Height]
               then, at the end of the case, Traverse ↦ count :: k1 :: v1 :: k2 :: v2 …
               a panic of the implementation ↦ -2 and the observation stops there.
 
@@ -47,6 +48,11 @@ Fixpoint run_wire (recs : list (list Z)) (t : btree) : list Z :=
         | Ok r => enc_get r ++ enc_state t ++ run_wire recs' t
         | _ => panic_mark
         end
+      else if c =? 4 then
+        match traverse t with
+        | Ok l => enc_pairs l ++ enc_state t ++ run_wire recs' t
+        | _ => panic_mark
+        end
       else wire_error
   | _ => wire_error
   end.
@@ -66,6 +72,17 @@ Definition state_ok (m : amap) (nkeys : Z) (s e h : Z) : bool :=
   (s =? Z.of_nat (length m)) &&
   (e =? match m with [] => 1 | _ => 0 end) &&
   (0 <=? h) && (h <=? nkeys) && (2 ^ h <=? Z.max 1 nkeys).
+
+(* [strip_prefix p obs] = Some r  iff  obs = p ++ r *)
+Fixpoint strip_prefix (p obs : list Z) : option (list Z) :=
+  match p with
+  | [] => Some obs
+  | x :: p' =>
+      match obs with
+      | y :: obs' => if x =? y then strip_prefix p' obs' else None
+      | [] => None
+      end
+  end.
 
 Fixpoint holds_wire (recs : list (list Z)) (m : amap) (seen : list Z) (obs : list Z) : bool :=
   match recs with
@@ -90,6 +107,13 @@ Fixpoint holds_wire (recs : list (list Z)) (m : amap) (seen : list Z) (obs : lis
         match obs with
         | f :: x :: s :: e :: h :: obs' =>
             zlist_eqb [f; x] (enc_get (sget k m)) &&
+            state_ok m (Z.of_nat (length seen)) s e h && holds_wire recs' m seen obs'
+        | _ => false
+        end
+      else if c =? 4 then
+        (* a traversal in the middle of the history: exactly the reference map, in order *)
+        match strip_prefix (enc_pairs m) obs with
+        | Some (s :: e :: h :: obs') =>
             state_ok m (Z.of_nat (length seen)) s e h && holds_wire recs' m seen obs'
         | _ => false
         end
